@@ -187,7 +187,7 @@ func (db *DB) Delete(key []byte) {
 
 func (db *DB) Get(key []byte) (kv.Entry, error) {
 	sstables := db.currentSSTables()
-	vhook.At("dkv.get.after-levels", db)
+	vhook.At("dkv.get.window", db)
 
 	// First try to get from the memtables
 	v, err := db.mtables.Get(key)
@@ -205,7 +205,7 @@ func (db *DB) Get(key []byte) (kv.Entry, error) {
 
 func (db *DB) ScanPrefix(prefix []byte, errOut *error) iter.Seq[kv.Entry] {
 	sstables := db.currentSSTables()
-	vhook.At("dkv.scan.after-levels", db)
+	vhook.At("dkv.scan.window", db)
 	iters := []iter.Seq[kv.Entry]{db.mtables.ScanPrefix(prefix, errOut), sstables.ScanPrefix(prefix, errOut)}
 	return kv.MergeEntries(iters)
 }
